@@ -22,6 +22,17 @@ this process (it must lie under ctx["repo"]):
   * `flattened_sum` / `flattened_product` as a record of the choices their loop makes;
   * the positional constructor parameters of the node classes the bodies build.
 
+Second table (lean/PV/Generated/OperatorsSyntax.lean, `extract_operators_syntax`): the NON-arithmetic
+syntax of `Expression` — `__getitem__`, `__call__`, `attr`, the property `a` together with
+`_AttributeLookupCreator.__init__ / __getattr__`, `index`, `not_`, `and_`, `or_`, `eq`, `ne`, `le`,
+`lt`, `ge`, `gt`, `__abs__`, `__le__`, `__lt__`, `__ge__`, `__gt__`, `__iter__` — as `C03SynBody`
+decision trees (lean/PV/Model/OpsSyntaxTable.lean): which test (`isinstance(p, EmptyOK)`,
+`p == ()`, `if kwargs`), which constructor with which arguments in which order (the parameter
+itself, `p.child`, `args`, `immutabledict(kwargs)`, a string literal, a tuple display), and the
+dataclass field lists of the node classes these bodies build.  An override of one of these names
+or a `__getattr__` / `__len__` / `__contains__` / `__index__` … hook in `Expression` or a node
+class is an error.
+
 What is recorded is what the source SAYS.  Any statement or expression shape this reader does not
 know, any arithmetic dunder in another node class, any name that does not refer to the object of
 `pymbolic.primitives` it is read as, is an `ExtractError` (reported by the check as a broken
@@ -86,7 +97,7 @@ def _prim(ctx=None):
     return p
 
 
-def _fn_ast(fn, what):
+def _fn_ast(fn, what, decorators=()):
     if not inspect.isfunction(fn):
         raise ExtractError(f"{what}: not a plain function ({type(fn).__name__})")
     try:
@@ -97,7 +108,7 @@ def _fn_ast(fn, what):
     if len(mod.body) != 1 or not isinstance(mod.body[0], ast.FunctionDef):
         raise ExtractError(f"{what}: source is not a single function definition")
     node = mod.body[0]
-    if node.decorator_list:
+    if [ast.unparse(d) for d in node.decorator_list] != list(decorators):
         raise ExtractError(f"{what}: decorated")
     return node
 
@@ -760,9 +771,322 @@ def render(t):
     return "\n".join(out)
 
 
+# {{{ the non-arithmetic syntax: __getitem__, __call__, attr / a, constructor methods
+
+# Python attribute of `Expression` -> (constructor of `C03SynName`, signature)
+SYN_METHODS = {
+    "__getitem__": ("getitem", "one"), "__call__": ("call", "star"), "attr": ("attr", "one"),
+    "a": ("a", "prop"), "index": ("index", "one"),
+    "not_": ("not_", "unary"), "and_": ("and_", "one"), "or_": ("or_", "one"),
+    "eq": ("eq", "one"), "ne": ("ne", "one"), "le": ("le", "one"), "lt": ("lt", "one"),
+    "ge": ("ge", "one"), "gt": ("gt", "one"), "__abs__": ("abs", "unary"),
+    "__le__": ("dle", "one"), "__lt__": ("dlt", "one"), "__ge__": ("dge", "one"),
+    "__gt__": ("dgt", "one"), "__iter__": ("iter", "unary"),
+}
+# hooks CPython would consult for subscript / call / attribute / container syntax that the model
+# does not have
+SYN_UNMODELLED = {"__getattr__", "__getattribute__", "__setitem__", "__delitem__", "__contains__",
+                  "__len__", "__index__", "__class_getitem__", "__missing__", "__reversed__",
+                  "__next__", "__set_name__", "__get__", "__set__"}
+# the classes the bodies may build, with the `__post_init__` hooks known to leave the positional
+# fields alone for the arguments these bodies pass (a hashable mapping; an operator symbol)
+SYN_NODE_CLASSES = ("Subscript", "Call", "CallWithKwargs", "Lookup", "LogicalNot", "LogicalAnd",
+                    "LogicalOr", "Comparison", "Variable")
+SYN_POST_INIT_OK = {"CallWithKwargs", "Comparison"}
+CREATOR = "_AttributeLookupCreator"
+
+
+class SynReader:
+    """reads one method of the non-arithmetic syntax into a `C03SynBody`"""
+
+    def __init__(self, p, fn, what, sig):
+        self.p = p
+        self.fn = fn
+        self.what = what
+        self.node = _fn_ast(fn, what, ("property",) if sig == "prop" else ())
+        if fn.__globals__ is not p.__dict__:
+            raise ExtractError(f"{what}: defined outside pymbolic.primitives")
+        if sig == "prop" and "property" in fn.__globals__:
+            raise ExtractError(f"{what}: `property` is shadowed")
+        a = self.node.args
+        if a.kwonlyargs or a.posonlyargs or a.defaults or a.kw_defaults:
+            raise ExtractError(f"{what}: unreadable signature")
+        names = [x.arg for x in a.args]
+        if not names or names[0] != "self":
+            raise ExtractError(f"{what}: first parameter is not `self`")
+        self.param = self.vararg = self.kwarg = None
+        if sig in ("unary", "prop"):
+            ok = len(names) == 1 and not a.vararg and not a.kwarg
+        elif sig == "one":
+            ok = len(names) == 2 and not a.vararg and not a.kwarg
+            self.param = names[1] if ok else None
+        else:
+            ok = len(names) == 1 and a.vararg is not None and a.kwarg is not None
+            if ok:
+                self.vararg, self.kwarg = a.vararg.arg, a.kwarg.arg
+        if not ok:
+            raise ExtractError(f"{what}: signature is not the `{sig}` one")
+        self.locals = {}          # names bound by local imports -> object
+
+    def err(self, msg, n=None):
+        tail = f": `{ast.unparse(n)[:90]}`" if n is not None else ""
+        return ExtractError(f"{self.what}: {msg}{tail}")
+
+    def bound(self):
+        return {"self", self.param, self.vararg, self.kwarg} - {None}
+
+    def glob(self, name, n):
+        if name in self.bound():
+            raise self.err(f"parameter {name} used as a global", n)
+        if name in self.locals:
+            return self.locals[name]
+        g = self.fn.__globals__
+        if name in g:
+            return g[name]
+        import builtins
+        if hasattr(builtins, name):
+            return getattr(builtins, name)
+        raise self.err(f"unknown name {name}", n)
+
+    def is_name(self, n, name):
+        return name is not None and isinstance(n, ast.Name) and n.id == name
+
+    def klass(self, n):
+        if isinstance(n, ast.Name) and n.id not in self.bound():
+            obj = self.glob(n.id, n)
+            if inspect.isclass(obj) and obj is getattr(self.p, n.id, None):
+                return n.id
+        return None
+
+    # terms ------------------------------------------------------------------------------------
+    def term(self, n):
+        if self.is_name(n, "self"):
+            return ".self"
+        if self.is_name(n, self.param):
+            return ".arg"
+        if self.is_name(n, self.vararg):
+            return ".args"
+        if (isinstance(n, ast.Attribute) and self.is_name(n.value, self.param)
+                and n.attr == "child"):
+            flds = [f.name for f in dataclasses.fields(self.p.EmptyOK)]
+            if flds != ["child"]:
+                raise self.err("EmptyOK does not have the single field `child`", n)
+            return ".argChild"
+        if isinstance(n, ast.Attribute) and self.is_name(n.value, "self"):
+            return f".selfField {q(n.attr)}"
+        if isinstance(n, ast.Constant) and type(n.value) is str:
+            return f".str {q(n.value)}"
+        if isinstance(n, ast.Tuple):
+            if any(isinstance(e, ast.Starred) for e in n.elts):
+                raise self.err("starred element", n)
+            return ".tuple [" + ", ".join(self.term(e) for e in n.elts) + "]"
+        if isinstance(n, ast.Call) and not n.keywords and isinstance(n.func, ast.Name):
+            f = n.func.id
+            if (len(n.args) == 1 and self.is_name(n.args[0], self.kwarg)
+                    and f not in self.bound()):
+                import immutabledict
+                if self.glob(f, n) is not immutabledict.immutabledict:
+                    raise self.err("`kwargs` is wrapped in something else than immutabledict", n)
+                return ".kwargs"
+            c = self.klass(n.func)
+            if c is not None and (c in SYN_NODE_CLASSES or c == CREATOR):
+                if any(isinstance(e, ast.Starred) for e in n.args):
+                    raise self.err("starred argument", n)
+                return f".node {q(c)} [" + ", ".join(self.term(e) for e in n.args) + "]"
+        raise self.err("unreadable expression", n)
+
+    # conditions -------------------------------------------------------------------------------
+    def cond(self, n):
+        if (isinstance(n, ast.Call) and self.is_name(n.func, "isinstance") and not n.keywords
+                and len(n.args) == 2 and self.is_name(n.args[0], self.param)):
+            import builtins
+            if self.glob("isinstance", n) is not builtins.isinstance:
+                raise self.err("`isinstance` is shadowed", n)
+            if self.klass(n.args[1]) != "EmptyOK":
+                raise self.err("isinstance test for something else than EmptyOK", n)
+            return ".isEmptyOK"
+        if (isinstance(n, ast.Compare) and len(n.ops) == 1 and isinstance(n.ops[0], ast.Eq)
+                and self.is_name(n.left, self.param) and isinstance(n.comparators[0], ast.Tuple)
+                and not n.comparators[0].elts):
+            return ".eqEmptyTuple"
+        if self.is_name(n, self.kwarg):
+            return ".kwargsTruthy"
+        raise self.err("unreadable test", n)
+
+    # statements -------------------------------------------------------------------------------
+    def block(self, stmts, cont=()):
+        if not stmts:
+            if cont:
+                return self.block(cont[0], cont[1:])
+            raise self.err("a path falls off the end of the function (returns None)")
+        s, rest = stmts[0], stmts[1:]
+        if isinstance(s, ast.Return):
+            if rest:
+                raise self.err("statement after `return`", rest[0])
+            if s.value is None:
+                raise self.err("bare `return`")
+            v = s.value
+            if (isinstance(v, ast.Subscript) and self.is_name(v.value, "self")
+                    and self.is_name(v.slice, self.param)):
+                return ".retGetitem"
+            return f".ret ({self.term(v)})"
+        if isinstance(s, ast.Raise):
+            if rest:
+                raise self.err("statement after `raise`", rest[0])
+            e = s.exc
+            import builtins
+            if (s.cause is None and isinstance(e, ast.Call) and isinstance(e.func, ast.Name)
+                    and e.func.id == "TypeError" and self.glob("TypeError", s) is builtins.TypeError
+                    and len(e.args) == 1 and isinstance(e.args[0], ast.Constant)
+                    and not e.keywords):
+                return ".raiseTypeError"
+            raise self.err("unreadable raise", s)
+        if isinstance(s, ast.If):
+            c = self.cond(s.test)
+            thn = self.block(s.body, (rest, *cont))
+            els = self.block(s.orelse, (rest, *cont)) if s.orelse else self.block(rest, cont)
+            return f".ite {c}\n      ({thn})\n      ({els})"
+        if (isinstance(s, ast.Expr) and isinstance(s.value, ast.Call)
+                and isinstance(s.value.func, ast.Name) and s.value.func.id == "warn"):
+            import warnings
+            if self.glob("warn", s) is not warnings.warn:
+                raise self.err("`warn` is not warnings.warn", s)
+            cat = s.value.args[1] if len(s.value.args) >= 2 else None
+            if not (isinstance(cat, ast.Name) and cat.id == "DeprecationWarning"
+                    and isinstance(s.value.args[0], (ast.Constant, ast.BinOp))):
+                raise self.err("unreadable warning", s)
+            return f".outside {q('warn(…, DeprecationWarning)')} ({self.block(rest, cont)})"
+        if isinstance(s, ast.ImportFrom):
+            if (s.module != "immutabledict" or s.level != 0 or len(s.names) != 1
+                    or s.names[0].name != "immutabledict" or s.names[0].asname is not None):
+                raise self.err("unreadable import", s)
+            import immutabledict
+            self.locals["immutabledict"] = immutabledict.immutabledict
+            return (f".outside {q('from immutabledict import immutabledict')} "
+                    f"({self.block(rest, cont)})")
+        raise self.err("unreadable statement", s)
+
+    def body(self):
+        return self.block(_stmts(self.node))
+
+
+def read_syntax_methods(p):
+    all_names = set(SYN_METHODS) | SYN_UNMODELLED
+    for c in node_classes(p):
+        for name in sorted(all_names):
+            if name in c.__dict__:
+                raise ExtractError(f"{c.__name__}.{name}: subscript / call / attribute / "
+                                   "constructor-method hook in a node class the model does not "
+                                   "tell apart from Expression")
+    for name in sorted(SYN_UNMODELLED):
+        if name in p.Expression.__dict__:
+            raise ExtractError(f"Expression.{name}: syntax hook outside the model")
+    out = []
+    for name, (lean, sig) in SYN_METHODS.items():
+        if name not in p.Expression.__dict__:
+            raise ExtractError(f"Expression.{name} is missing")
+        obj = p.Expression.__dict__[name]
+        what = f"Expression.{name}"
+        if sig == "prop":
+            if not (type(obj) is property and obj.fset is None and obj.fdel is None):
+                raise ExtractError(f"{what}: not a read-only property")
+            obj = obj.fget
+        r = SynReader(p, obj, what, sig)
+        out.append(dict(lean=lean, attr=name, owner="Expression", sig=sig, body=r.body()))
+    # the helper behind `expr.a`: only `__init__` (stores its parameter) and `__getattr__`
+    cr = getattr(p, CREATOR)
+    own = sorted(k for k in cr.__dict__
+                 if k not in ("__module__", "__doc__", "__dict__", "__weakref__",
+                              "__firstlineno__", "__static_attributes__", "__qualname__"))
+    if own != ["__getattr__", "__init__"] or cr.__mro__ != (cr, object):
+        raise ExtractError(f"{CREATOR}: unexpected members {own}")
+    r = SynReader(p, cr.__dict__["__getattr__"], f"{CREATOR}.__getattr__", "one")
+    out.append(dict(lean="creatorGetattr", attr="__getattr__", owner=CREATOR, sig="one",
+                    body=r.body()))
+    return out
+
+
+def read_creator_fields(p):
+    """`_AttributeLookupCreator.__init__(self, x₁, …)`: body `self.Fₖ = xₖ` -> [F₁, …]"""
+    cr = getattr(p, CREATOR)
+    node = _fn_ast(cr.__dict__["__init__"], f"{CREATOR}.__init__")
+    a = node.args
+    if a.vararg or a.kwarg or a.kwonlyargs or a.posonlyargs or a.defaults or a.kw_defaults:
+        raise ExtractError(f"{CREATOR}.__init__: unreadable signature")
+    params = [x.arg for x in a.args]
+    st = _stmts(node)
+    if not params or params[0] != "self" or len(st) != len(params) - 1:
+        raise ExtractError(f"{CREATOR}.__init__: unreadable")
+    fields = []
+    for s, prm in zip(st, params[1:]):
+        if not (isinstance(s, ast.Assign) and len(s.targets) == 1
+                and isinstance(s.targets[0], ast.Attribute)
+                and isinstance(s.targets[0].value, ast.Name) and s.targets[0].value.id == "self"
+                and isinstance(s.value, ast.Name) and s.value.id == prm):
+            raise ExtractError(f"{CREATOR}.__init__: statement is not `self.F = {prm}`: "
+                               f"`{ast.unparse(s)[:80]}`")
+        fields.append(s.targets[0].attr)
+    return fields
+
+
+def syn_ctor_fields(p):
+    out = []
+    for name in SYN_NODE_CLASSES:
+        c = getattr(p, name)
+        if not dataclasses.is_dataclass(c):
+            raise ExtractError(f"{name} is not a dataclass")
+        fs = dataclasses.fields(c)
+        if any(not f.init or f.kw_only for f in fs):
+            raise ExtractError(f"{name}: a field is not a positional init parameter")
+        for k in c.__mro__:
+            if k is object:
+                continue
+            if "__new__" in k.__dict__:
+                raise ExtractError(f"{name}: constructor hook {k.__name__}.__new__")
+            if "__post_init__" in k.__dict__ and k.__name__ not in SYN_POST_INIT_OK:
+                raise ExtractError(f"{name}: constructor hook {k.__name__}.__post_init__")
+        out.append((name, [f.name for f in fs]))
+    out.append((CREATOR, read_creator_fields(p)))
+    return out
+
+
+def syntax_tables(ctx=None):
+    p = _prim(ctx)
+    return dict(methods=read_syntax_methods(p), ctorFields=syn_ctor_fields(p))
+
+
+def render_syntax(t):
+    out = ["import PV.Model.OpsSyntaxTable",
+           "/- GENERATED by extract/operators.py from the live source of pymbolic/primitives.py",
+           "   (subscript / call / attribute syntax and the constructor methods of Expression)",
+           "   — do not edit. -/",
+           "namespace PV.Generated", ""]
+    for m in t["methods"]:
+        out.append(f"/-- `{m['owner']}.{m['attr']}` -/")
+        out.append(f"def c03Syn_{m['lean']} : C03SynBody :=\n  {m['body']}\n")
+    out.append("def c03SynMethods : List C03SynMethod := [\n" + ",\n".join(
+        f"  ⟨.{m['lean']}, {q(m['attr'])}, {q(m['owner'])}, .{m['sig']}, c03Syn_{m['lean']}⟩"
+        for m in t["methods"]) + "\n]\n")
+    out.append("def c03SynCtorFields : List (String × List String) := [\n" + ",\n".join(
+        f"  ({q(n)}, [{', '.join(q(f) for f in fs)}])" for n, fs in t["ctorFields"]) + "\n]\n")
+    out.append("def c03SynTable : C03SynTable where\n  methods := c03SynMethods\n"
+               "  ctorFields := c03SynCtorFields\n")
+    out.append("end PV.Generated\n")
+    return "\n".join(out)
+
+# }}}
+
+
 def extract_operators(ctx=None):
     t = tables(ctx)
     write_if_changed(os.path.join(LEAN, "PV", "Generated", "Operators.lean"), render(t))
+    return t
+
+
+def extract_operators_syntax(ctx=None):
+    t = syntax_tables(ctx)
+    write_if_changed(os.path.join(LEAN, "PV", "Generated", "OperatorsSyntax.lean"),
+                     render_syntax(t))
     return t
 
 # }}}
@@ -770,3 +1094,4 @@ def extract_operators(ctx=None):
 
 if __name__ == "__main__":
     print(render(tables()))
+    print(render_syntax(syntax_tables()))
